@@ -4,7 +4,7 @@
            want map to the current disk; fuel is never exhausted on topologically ordered graphs.
    Part T: [build_f_eq_build] (with no_inputless_phony), [build_f_trace_subset] (without). *)
 From NinjaV Require Import Engine.CrashDefs.
-From NinjaV Require Import Base.Bytes Engine.ScanDefs Engine.ScanSpec Engine.ScanProofs Engine.HistDefs Engine.HistProofs Engine.HistMinimal Engine.HistFaithful.
+From NinjaV Require Import Base.Bytes Engine.ScanDefs Engine.ScanSpec Engine.ScanProofs Engine.HistDefs Engine.HistProofs Engine.HistRun Engine.HistMinimal Engine.HistFaithful.
 Local Open Scope Z_scope.
 
 (* [l] is a subsequence of [l'] *)
@@ -1827,4 +1827,57 @@ Proof.
   apply (C02_second_build_idle cmd g Hwf Hwg Hfrag Htopo st T st' HG Hnip Hb).
 Qed.
 
+(* (2) WITHOUT the hypothesis about input-less phony statements: both loops accept the same
+   requests; the commands the faithful loop runs are a subsequence of those HistDefs.build runs
+   (the ghost traces, most recent first, relative to the common start); and every node ends with
+   the same content -- "the model re-runs a superset, the contents agree" *)
+Theorem build_f_trace_subset st T :
+  (forall e h1 h2 S o, ei_generator (g_edge g e) = true -> cmd e h1 S o = cmd e h2 S o) ->
+  Good cmd g st ->
+  (build_f cmd g st T = None <-> build cmd g st T = None) /\
+  forall stf stu, build_f cmd g st T = Some stf -> build cmd g st T = Some stu ->
+    (exists lf lu, h_trace stf = lf ++ h_trace st /\ h_trace stu = lu ++ h_trace st /\ subseq lf lu) /\
+    (forall n, content_of stf n = content_of stu n).
+Proof.
+  intros Hgen HG. unfold build_f, build.
+  destruct (scan (G st) (W st) T) as [c|m d|e| |s p] eqn:Hs; try (split; [tauto|intros stf stu H; discriminate]).
+  destruct (sub_final st T s p HG Hs Hgen) as [stf [x [lf [lu [E [Etf [Etu [Hsub Hc]]]]]]]].
+  rewrite E. split; [split; discriminate|].
+  intros stf' stu' Hf Hu. inversion Hf; subst stf'. inversion Hu; subst stu'.
+  split; [exists lf, lu; split; [exact Etf|split; [exact Etu|exact Hsub]]|exact Hc].
+Qed.
+
 End Faith.
+
+(* ================================================================== the pinned deviation, faithful *)
+(* HistRun.ExAlwaysRestat (found by tools/histmodel.py) under the concrete command function:
+   HistDefs.build runs [gen] and [out] in the second invocation, [build_f] runs [gen] only, like ninja *)
+Example faithful_ExAlwaysRestat :
+  let g := ExAlwaysRestat.g in
+  let st1 := run_hist_f (hcmd g) g (init_hstate g) [Edit 0 1; Build [3%nat]] in
+  let st2 := apply_step_f (hcmd g) g st1 (Build [3%nat]) in
+  st1 = run_hist (hcmd g) g (init_hstate g) [Edit 0 1; Build [3%nat]] /\
+  HistRun.trace_delta (init_hstate g) st1 = [1; 2]%nat /\
+  HistRun.trace_delta st1 st2 = [1%nat] /\
+  HistRun.trace_delta st1 (apply_step (hcmd g) g st1 (Build [3%nat])) = [1; 2]%nat /\
+  forallb (is_clean g st2) (seq 0 4) = true.
+Proof. vm_compute. repeat split; reflexivity. Qed.
+
+
+(* the example graph of HistFaithful.ExF is a model of the premises (all but no_inputless_phony) *)
+Lemma ExF_wf_spec : wf_spec ExF.g.
+Proof.
+  split; [|split].
+  - intros e o Ho. destruct e as [|[|[|e]]]; cbn in Ho; try (destruct Ho as [<-|[]]; reflexivity); destruct Ho.
+  - intros n e Hp. destruct n as [|[|[|[|n]]]]; cbn in Hp; try discriminate; inversion Hp; subst; cbn; left; reflexivity.
+  - intros e Hd. exfalso. apply Hd. destruct e as [|[|[|e]]]; reflexivity.
+Qed.
+
+Lemma ExF_wf_graph : wf_graph ExF.g.
+Proof.
+  intros n e Hp. destruct n as [|[|[|[|n]]]]; cbn in Hp; try discriminate; inversion Hp; subst; cbn; lia.
+Qed.
+
+Lemma ExF_gen : forall e h h' S o,
+  ei_generator (g_edge ExF.g e) = true -> Ex.cmd e h S o = Ex.cmd e h' S o.
+Proof. intros e h h' S o H. destruct e as [|[|[|e]]]; cbn in H; discriminate. Qed.
